@@ -949,6 +949,11 @@ func ModifyRegister(register *object.Register, in ast.Node) (ast.Node, bool) {
 		if t := in.Type(); (t == token.INCR || t == token.DECR) && in.Right == ast.Node(register) {
 			return nil, false
 		}
+	case *ast.Builtin:
+		// del(x) on the variable itself: evalDelete needs the identifier (and the variable has to exist to be deleted).
+		if in.Type() == token.DEL && len(in.Parameters) == 1 && in.Parameters[0] == ast.Node(register) {
+			return nil, false
+		}
 	case *ast.FunctionLiteral:
 		// skip lambda/functions in functions.
 		return nil, false
